@@ -540,7 +540,7 @@ func (h *hist) loadAndCompare(chain []backupRec, srcScan []obsItem, cfgLast stre
 	case concurrent:
 		sig = "F7-stream-producers-read-different-snapshots"
 	case classGC && len(chain) > 1:
-		sig = "incremental-backup-misses-compacted-delete"
+		sig = "F21-incremental-backup-misses-compacted-delete"
 	}
 	if !okVisible {
 		h.failed = true
